@@ -2,6 +2,7 @@
 // websocket connection on loopback TCP. Same protocol as lean/Driver/WsConn.lean:
 //
 //	new | msg b <hex|-> | msg t <hex|-> | close | read <n> | write <hex|->
+//	read -> <hex|-> | err | eof | blocked (Read waits for a message the peer has not sent) | err-timeout (harness)
 //
 // `msg`/`close` are performed by the client side of the connection, `read`/`write` call
 // wsConn.Read / wsConn.Write on the server side.
@@ -18,9 +19,11 @@ import (
 	"time"
 
 	"verifharness/internal/drv"
+	"verifharness/internal/gstate"
 
 	"github.com/DrmagicE/gmqtt/server"
 	"github.com/gorilla/websocket"
+	"golang.org/x/sys/unix"
 )
 
 const wait = 5 * time.Second // generous: the machine may be heavily loaded; a timeout is reported as err-… and retried
@@ -60,6 +63,25 @@ func showHex(b []byte) string {
 		return "-"
 	}
 	return hex.EncodeToString(b)
+}
+
+// unreadKernelBytes is the number of bytes the kernel holds for the server side of the connection (FIONREAD); -1 if unknown.
+func (d *wsDrv) unreadKernelBytes() int {
+	tc, ok := d.sconn.UnderlyingConn().(*net.TCPConn)
+	if !ok {
+		return -1
+	}
+	rc, err := tc.SyscallConn()
+	if err != nil {
+		return -1
+	}
+	n := -1
+	_ = rc.Control(func(fd uintptr) {
+		if v, err := unix.IoctlGetInt(int(fd), unix.TIOCINQ); err == nil {
+			n = v
+		}
+	})
+	return n
 }
 
 func (d *wsDrv) reset() {
@@ -129,16 +151,60 @@ func (d *wsDrv) Step(line string) string {
 		if n < 0 || n > len(d.buf) {
 			return "bad-op"
 		}
-		// never block forever: the deadline goes through wsConn's embedded net.Conn, as in the broker
-		_ = d.ws.SetReadDeadline(time.Now().Add(wait))
-		got, err := d.ws.Read(d.buf[:n])
+		// Never block forever, and decide "blocked" from facts rather than from elapsed time: Read is blocked when its
+		// goroutine is parked in the network poller inside ReadMessage while the kernel holds no unread byte for the
+		// server side of the connection (every client write has returned before this op started), steadily for 60 ms.
+		// It is then released through wsConn's embedded net.Conn deadline, as the broker's keep-alive would do.
+		type rres struct {
+			n   int
+			err error
+		}
+		done := make(chan rres, 1)
+		_ = d.ws.SetReadDeadline(time.Time{})
+		go func() {
+			got, err := d.ws.Read(d.buf[:n])
+			done <- rres{got, err}
+		}()
+		var r rres
+		var since time.Time
+		blocked, hard, tick := false, time.Now().Add(wait), 100*time.Microsecond
+	poll:
+		for {
+			select {
+			case r = <-done:
+				break poll
+			case <-time.After(tick):
+			}
+			if tick < 4*time.Millisecond {
+				tick *= 2
+			}
+			switch {
+			case gstate.InState("(*wsConn).Read", "IO wait") && d.unreadKernelBytes() == 0:
+				if since.IsZero() {
+					since = time.Now()
+				} else if time.Since(since) > 60*time.Millisecond {
+					blocked = true
+					_ = d.ws.SetReadDeadline(time.Now())
+					r = <-done
+					break poll
+				}
+			default:
+				since = time.Time{}
+			}
+			if time.Now().After(hard) {
+				_ = d.ws.SetReadDeadline(time.Now())
+				<-done
+				return "err-timeout"
+			}
+		}
+		got, err := r.n, r.err
 		if err != nil {
 			var ne net.Error
 			switch {
 			case errors.Is(err, server.ErrInvalWsMsgType):
 				return "err"
-			case errors.As(err, &ne) && ne.Timeout():
-				return "err-blocked"
+			case blocked && errors.As(err, &ne) && ne.Timeout():
+				return "blocked"
 			}
 			if got != 0 {
 				return fmt.Sprintf("eof+%d", got)
